@@ -185,6 +185,108 @@ Section Bridge.
     apply (bridge_sub t Hw [] et Ee); [|apply (HT [] et); exact Hown|exact HT].
     rewrite <- Er. apply RN_root. exact Hne.
   Qed.
+
+  (* ---- the converse inclusion: every target node is in nodes_of ---- *)
+  Lemma full_children_in2 p : forall l i q c', In (q, c') (full_children p i l) ->
+    exists j, nth_error l j = Some c' /\ q = p ++ [i + N.of_nat j].
+  Proof.
+    induction l as [|c0 r IH]; intros i q c'; cbn [full_children]; [intros []|].
+    assert (Hr : In (q, c') (full_children p (i + 1) r) -> exists j, nth_error (c0 :: r) j = Some c' /\ q = p ++ [i + N.of_nat j]).
+    { intros X. destruct (IH _ _ _ X) as (j & A & B). exists (S j). split; [exact A|]. rewrite B. f_equal. f_equal. lia. }
+    destruct c0; try exact Hr;
+      (intros [X|X]; [inversion X; subst; exists 0%nat; split; [reflexivity|f_equal; f_equal; lia]|exact (Hr X)]).
+  Qed.
+
+  Lemma nth_error_map_inv {A B} (f : A -> B) : forall l j y, nth_error (map f l) j = Some y ->
+    exists x, nth_error l j = Some x /\ f x = y.
+  Proof.
+    induction l as [|a l IH]; intros j y E; [destruct j; discriminate|].
+    destruct j; simpl in E; [inversion E; exists a; split; reflexivity|apply IH; exact E].
+  Qed.
+
+  Variable t : node.
+  (* sub-nodes of t with their paths (descending through well-formed children only) *)
+  Inductive sub : list N -> node -> Prop :=
+  | sub_root : sub [] t
+  | sub_short p k c : sub p (NShort k c) -> pwf c -> sub (p ++ k) c
+  | sub_full p cs j c : sub p (NFull cs) -> nth_error cs j = Some c -> (j < 16)%nat -> pwf c ->
+      sub (p ++ [N.of_nat j]) c.
+
+  Lemma sub_in p n : sub p n -> forall x, In x (nodes_of H p n) -> In x (nodes_of H [] t).
+  Proof.
+    induction 1 as [|p k c S IH Hc|p cs j c S IH Hj J Hc]; intros x Hx; [exact Hx| |].
+    - apply IH. rewrite nodes_of_short, in_app_iff. left. exact Hx.
+    - apply IH. destruct x as [q e]. rewrite nodes_of_full, in_app_iff. left.
+      apply (in_go_nodes H H_len). exists j, c. split; [exact Hj|exact Hx].
+  Qed.
+
+  Lemma own_in_nodes p n x : pwf n -> In x (own H p n) -> In x (nodes_of H p n).
+  Proof.
+    intros Hw Hx. destruct (pwf_shape n Hw) as [(k' & c' & ->)|(cs' & ->)];
+      [rewrite nodes_of_short|rewrite nodes_of_full]; apply in_app_iff; right; exact Hx.
+  Qed.
+
+  Lemma cref_NHash_inv c ch : (c = NEmpty \/ (exists v, c = NValue v) \/ pwf c) ->
+    cref H c (collapse H c) = NHash ch ->
+    pwf c /\ exists ec, node_enc H c = Some ec /\ (32 <= length ec)%nat /\ ch = H ec.
+  Proof.
+    intros [->|[(v & ->)|Hc]] E; try discriminate E.
+    split; [exact Hc|]. destruct (pwf_enc_total H H_len c Hc) as [ec Eec]. exists ec. split; [exact Eec|].
+    destruct (Nat.lt_ge_cases (length ec) 32) as [L|L].
+    - exfalso. destruct (pwf_shape c Hc) as [(k & c' & ->)|(cs & ->)]; unfold cref in E; rewrite Eec in E;
+        (assert (Nat.ltb (length ec) 32 = true) as X by (apply Nat.ltb_lt; exact L)); rewrite X in E; discriminate E.
+    - split; [exact L|]. rewrite (cref_hashed c ec Hc Eec L) in E. inversion E. reflexivity.
+  Qed.
+
+  Theorem RN_in_nodes_of et :
+    pwf t -> node_enc H t = Some et -> root = H et ->
+    (forall q e, In (q, e) (nodes_of H [] t) -> T (H e) = Some e) ->
+    forall q h cb, RN q h cb -> exists e, In (q, e) (nodes_of H [] t) /\ H e = h.
+  Proof.
+    intros Hw Ee Er HT.
+    assert (G : forall q h cb, RN q h cb ->
+      exists n e, sub q n /\ pwf n /\ node_enc H n = Some e /\ H e = h /\ ((32 <= length e)%nat \/ q = [])).
+    { intros q h cb R. induction R as [Hne|p h cb b n0 cl cp ch R IH Tb Dn Cl Hin|].
+      - exists t, et. split; [apply sub_root|]. split; [exact Hw|]. split; [exact Ee|]. split; [auto|right; reflexivity].
+      - destruct IH as (n & e & S & Pn & En & He & Hl).
+        assert (Hown : In (p, e) (nodes_of H [] t)).
+        { apply (sub_in p n S). apply (own_in_nodes p n _ Pn). apply (in_own H H_len).
+          split; [reflexivity|split; [exact En|]]. unfold Commit.hashedb. apply orb_true_iff.
+          destruct Hl as [L| ->]; [right; apply Nat.leb_le; exact L|left; reflexivity]. }
+        pose proof (HT _ _ Hown) as Te. rewrite He in Te. rewrite Te in Tb. inversion Tb; subst b.
+        pose proof (decode_enc H H_len _ _ Pn En) as De. unfold Proof.proof_decode in De. rewrite De in Dn. inversion Dn; subst n0.
+        inversion Pn as [k v Hk Hs Hv|k c Hn Hk0 Hs Hc|cs L17 Hch H16]; subst n.
+        + cbn [collapse child_list cref] in Cl. inversion Cl; subst cl. destruct Hin as [X|[]]. inversion X.
+        + cbn [collapse child_list] in Cl. inversion Cl; subst cl. destruct Hin as [X|[]]. inversion X as [[X1 X2]].
+          destruct (cref_NHash_inv c ch (or_intror (or_intror Hc)) X2) as (_ & ec & Eec & L & ->).
+          assert (Ht : has_term k = false) by (apply has_term_nib_false; apply nibbles_forallb; exact Hn).
+          unfold short_key. rewrite Ht.
+          exists c, ec. split; [apply sub_short; assumption|]. split; [exact Hc|]. split; [exact Eec|]. split; [reflexivity|left; exact L].
+        + assert (Ecl : Some (full_children p 0 (map (fun c => cref H c (collapse H c)) cs)) = Some cl).
+          { rewrite <- Cl. cbn [collapse]. unfold child_list. rewrite firstn_all2 by (rewrite map_length; lia). reflexivity. }
+          injection Ecl as Ecl. subst cl.
+          destruct (full_children_in2 _ _ _ _ _ Hin) as (j & Hj & ->).
+          apply nth_error_map_inv in Hj. destruct Hj as (c & Hc1 & Hc2).
+          assert (Hcase : c = NEmpty \/ (exists v, c = NValue v) \/ pwf c).
+          { destruct (Nat.lt_ge_cases j 16) as [J|J]; [destruct (Hch j c Hc1 J); auto|].
+            assert (j = 16%nat) by (assert (j < length cs)%nat by (apply nth_error_Some; congruence); lia). subst j.
+            destruct (H16 c Hc1) as [->|(v & -> & _)]; eauto. }
+          destruct (cref_NHash_inv c ch Hcase Hc2) as (Pc & ec & Eec & L & ->).
+          assert (J : (j < 16)%nat).
+          { destruct (Nat.lt_ge_cases j 16) as [J|J]; [exact J|].
+            assert (j = 16%nat) by (assert (j < length cs)%nat by (apply nth_error_Some; congruence); lia). subst j.
+            destruct (H16 c Hc1) as [->|(v & -> & _)]; inversion Pc. }
+          replace (0 + N.of_nat j) with (N.of_nat j) by lia.
+          exists c, ec. split; [eapply sub_full; eauto|]. split; [exact Pc|]. split; [exact Eec|]. split; [reflexivity|left; exact L].
+      - exfalso. assert (X : CbAccount = CbNone).
+        { clear - R. remember CbAccount as cbx. induction R; subst; auto; try discriminate. }
+        discriminate X. }
+    intros q h cb R. destruct (G q h cb R) as (n & e & S & Pn & En & He & Hl).
+    exists e. split; [|exact He].
+    apply (sub_in q n S). apply (own_in_nodes q n _ Pn). apply (in_own H H_len).
+    split; [reflexivity|split; [exact En|]]. unfold Commit.hashedb. apply orb_true_iff.
+    destruct Hl as [L| ->]; [right; apply Nat.leb_le; exact L|left; reflexivity].
+  Qed.
 End Bridge.
 
 From GV Require Import Trie.SyncProofs Trie.SyncComplete Trie.SyncCallback.
@@ -221,5 +323,35 @@ Section CompleteNodesOf.
       intros p h cb p' cb' R1 R2. rewrite (G _ _ _ R1), (G _ _ _ R2). reflexivity. }
     destruct (sync_complete_callback H T CD (H et) CbNone db0 Hk Hnz Hlen Ag ops s' C0 W Hp Ec) as (A & _).
     eapply A. eapply (nodes_of_in_RN H H_len T (H et) t et); eauto.
+  Qed.
+
+  (* exactness in terms of nodes_of: whatever the finished sync added to the store is a node
+     of the canonical node set of t, under its hash *)
+  Theorem sync_exact_nodes_of ops s' :
+    pwf t -> node_enc H t = Some et -> H et <> empty_root H ->
+    (forall q e, In (q, e) (nodes_of H [] t) -> T (H e) = Some e) ->
+    (forall p h cb, RN H T (H et) CbNone p h cb -> h <> zero32) ->
+    (forall p h cb, RN H T (H et) CbNone p h cb -> length h = 32%nat) ->
+    (forall k v, get k db0 = Some v ->
+       (forall b, RNh H T (H et) CbNone k -> T k = Some b -> v = b) /\
+       (forall h c, k = code_key h -> RC H T (H et) CbNone h -> CD h = Some c -> v = c)) ->
+    closedA H T (H et) CbNone db0 ->
+    let s0 := unsum (new_sync H false db0 (H et) CbNone) in
+    run_wf4 H T CD s0 ops ->
+    pending (run H s0 ops) = O -> commit (run H s0 ops) = Some s' ->
+    forall k v, get k (sc_db s') = Some v ->
+      get k db0 = Some v \/ exists q, In (q, v) (nodes_of H [] t) /\ k = H v.
+  Proof.
+    intros Hw Ee Hne HT Hnz Hlen Ag C0 s0 W Hp Ec k v Ek.
+    assert (G : forall p h cb, RN H T (H et) CbNone p h cb -> cb = CbNone).
+    { intros p h cb R. induction R; auto. }
+    assert (Hk : forall p h cb p' cb', RN H T (H et) CbNone p h cb -> RN H T (H et) CbNone p' h cb' -> cb = cb').
+    { intros p h cb p' cb' R1 R2. rewrite (G _ _ _ R1), (G _ _ _ R2). reflexivity. }
+    destruct (sync_complete_callback H T CD (H et) CbNone db0 Hk Hnz Hlen Ag ops s' C0 W Hp Ec) as (_ & _ & D).
+    destruct (D k v Ek) as [X|[((q & cb & R) & Tk)|(h & _ & Rc & _)]]; [left; exact X| |].
+    - right. destruct (RN_in_nodes_of H H_len T (H et) t et Hw Ee eq_refl HT q k cb R) as (e & Hin & He).
+      pose proof (HT _ _ Hin) as Te. rewrite He in Te. rewrite Te in Tk. inversion Tk; subst v.
+      exists q. split; [exact Hin|symmetry; exact He].
+    - exfalso. destruct Rc. apply G in H0. discriminate.
   Qed.
 End CompleteNodesOf.
